@@ -141,4 +141,17 @@ PROPS = {
         "assumptions": ["rstar's contract (bulk_load keeps every object, locate_within_distance = filter by distance_2 <= r^2, nearest_neighbor_iter sorted by distance_2) is a hypothesis of C14_rtree_brute_force and exercised here, not proved",
                         "sqrt is correctly rounded (IEEE 754), fused multiply-add exact on grid inputs"],
     },
+    "C16": {
+        "translators": [],
+        "count": {"quick": 90, "thorough": 900},
+        "rule": "structures with bonds obtained three ways - PDB text with SSBOND records read by the crate, renumbered random structures with add_bond, "
+                "squeezed structures with connect_atoms - and for each: clone, clone followed by an edit, serde_json value round trip, and (for text) a "
+                "second read; observed: == in both directions, equality of the full snapshot and metadata, bonds() of both sides (panic recorded), "
+                "diagnostics of the two reads as sorted lists; the clone's internal identities and bond table (through serde_json, the only public view) "
+                "compared with the model's clone; after a serde copy all live identities must be distinct; 1,2,4,8,16 (1..16 thorough) threads each "
+                "creating and cloning 200 atoms, all 400 x threads identities pairwise distinct.  non-trivial = structure with at least one bond; "
+                "distinct = distinct case line",
+        "assumptions": ["fetch_add(SeqCst) on the shared counter is atomic: the schedule theorem quantifies over every interleaving of atomic steps; real memory ordering is exercised under 1..16 threads, not modelled",
+                        "serde_json as the view of the identities"],
+    },
 }
